@@ -1,3 +1,101 @@
-From TV Require Import Base.
-Theorem C06_placeholder : True. Proof. exact I. Qed.
-Print Assumptions C06_placeholder.
+(* C06 -- timeouts are overall deadlines: never exceeded, never cut short (virtual time).
+   Property theorems only; proofs are in ProofC06.v.  Time is the clock of the scripted transport:
+   it advances only inside ChannelIO.read and time.sleep (the interpreter's own latency is not
+   modelled -- the claim is partial in that sense, see DESIGN.md). *)
+From TV Require Import Base BaseLemmas Utf8 Regex Channel ChannelLemmas ProofC02 ProofC03 ProofC06.
+
+(* every operation called at time now with timeout T >= 0: has returned or raised by now + T,
+   raises TimeoutError exactly AT now + T (never before), however the data trickles in *)
+Theorem C06_deadline_read_until_prompt :
+  forall p T c r c',
+  (0 <= T)%Z -> read_until_prompt p (Some T) c = (r, c') ->
+  (nowc c' <= nowc c + T)%Z /\ (r = ETimeout -> nowc c' = (nowc c + T)%Z) /\ r <> EBlocked.
+Proof. exact deadline_read_until_prompt. Qed.
+Print Assumptions C06_deadline_read_until_prompt.
+
+Theorem C06_deadline_expect :
+  forall pats T c r c',
+  (0 <= T)%Z -> expect pats (Some T) c = (r, c') ->
+  (nowc c' <= nowc c + T)%Z /\ (r = ETimeout -> nowc c' = (nowc c + T)%Z) /\ r <> EBlocked.
+Proof. exact deadline_expect. Qed.
+Print Assumptions C06_deadline_expect.
+
+Theorem C06_deadline_read_n :
+  forall n T c r c',
+  (0 <= T)%Z -> read (Z.of_nat (S n)) (Some T) c = (r, c') ->
+  (nowc c' <= nowc c + T)%Z /\ (r = ETimeout -> nowc c' = (nowc c + T)%Z) /\ r <> EBlocked.
+Proof. exact deadline_read_n. Qed.
+Print Assumptions C06_deadline_read_n.
+
+Theorem C06_deadline_read_iter :
+  forall fuel start T mx got acc c chs r c',
+  (forall m0, mx = Some m0 -> got < m0) ->
+  (nowc c <= start + T)%Z -> read_iter_loop fuel start (Some T) mx got acc c = (chs, r, c') ->
+  (nowc c' <= start + T)%Z /\ (r = ETimeout -> nowc c' = (start + T)%Z) /\ r <> EBlocked.
+Proof. exact read_iter_loop_deadline. Qed.
+Print Assumptions C06_deadline_read_iter.
+
+Theorem C06_deadline_readline :
+  forall T le c r c',
+  (0 <= T)%Z -> readline (Some T) le c = (r, c') ->
+  (nowc c' <= nowc c + T)%Z /\ (r = ETimeout -> nowc c' = (nowc c + T)%Z) /\ r <> EBlocked.
+Proof. exact deadline_readline. Qed.
+Print Assumptions C06_deadline_readline.
+
+(* send with read-back: T is ONE deadline for the whole payload, however many 512-byte slices *)
+Theorem C06_deadline_send_readback :
+  forall s T c r c',
+  (0 <= T)%Z -> slow c = None -> send s true (Some T) c = (r, c') ->
+  (nowc c' <= nowc c + T)%Z /\ (r = ETimeout -> nowc c' = (nowc c + T)%Z) /\ r <> EBlocked.
+Proof. exact deadline_send_readback. Qed.
+Print Assumptions C06_deadline_send_readback.
+
+(* read_until_timeout(T): never raises TimeoutError; returns exactly at now + T *)
+Theorem C06_read_until_timeout_returns_at_T :
+  forall T c r c',
+  (0 <= T)%Z -> read_until_timeout (Some T) c = (r, c') ->
+  (nowc c' <= nowc c + T)%Z /\ r <> ETimeout /\ r <> EBlocked /\
+  (forall out, r = Ret out -> nowc c' = (nowc c + T)%Z).
+Proof. exact deadline_read_until_timeout. Qed.
+Print Assumptions C06_read_until_timeout_returns_at_T.
+
+(* ... with exactly the data delivered before the deadline; the first piece left unread (if any)
+   arrives at or after the deadline *)
+Theorem C06_read_until_timeout_data :
+  forall T c out c',
+  wfc c -> (0 < T)%Z -> read_until_timeout (Some T) c = (Ret out, c') ->
+  exists data, cpend c = data ++ cpend c' /\ out = text data /\
+               nowc c' = (nowc c + T)%Z /\
+               match pend (io c') with [] => True | (at_, _) :: _ => (nowc c + T <= at_)%Z end.
+Proof. exact rut_returns_data_before_deadline. Qed.
+Print Assumptions C06_read_until_timeout_data.
+
+(* with no timeout TimeoutError is never raised *)
+Theorem C06_no_timeout_rup :
+  forall fuel start buf c c', rup_loop fuel start None buf c <> (ETimeout, c').
+Proof. exact rup_loop_none_no_timeout. Qed.
+Print Assumptions C06_no_timeout_rup.
+
+Theorem C06_no_timeout_expect :
+  forall fuel start pats buf c c', expect_loop fuel start None pats buf c <> (ETimeout, c').
+Proof. exact expect_loop_none_no_timeout. Qed.
+Print Assumptions C06_no_timeout_expect.
+
+Theorem C06_no_timeout_rut :
+  forall fuel start buf c out c',
+  rut_loop fuel start None buf c <> (Ret out, c') /\ rut_loop fuel start None buf c <> (ETimeout, c').
+Proof. exact rut_loop_none_never_returns. Qed.
+Print Assumptions C06_no_timeout_rut.
+
+(* the single step all of the above rest on: the remaining time is recomputed before every transport
+   read, data is accepted only strictly before the deadline, TimeoutError is raised exactly at it *)
+Theorem C06_iteration_deadline_invariant :
+  forall start T n c r c',
+  iter_step start (Some T) n c = (r, c') -> 0 < n ->
+  (now (io c) <= start + T)%Z ->
+  (now (io c') <= start + T)%Z /\
+  (r = STimeout -> now (io c') = (start + T)%Z) /\
+  (forall new, r = SData new -> (now (io c') < start + T)%Z) /\
+  r <> SBlocked.
+Proof. exact iter_step_time. Qed.
+Print Assumptions C06_iteration_deadline_invariant.
